@@ -32,7 +32,7 @@ def geometries(rng):
         shape = (c * rng.choice([1, 2, 3]), c * rng.choice([1, 2]))
         chunks = (c, c)
     elif kind == "skinny":
-        c0, c1 = rng.choice([(2000, 16), (16, 2000), (40000, 1), (5000, 8)])
+        c0, c1 = rng.choice([(2000, 16), (16, 2000), (40000, 1), (5000, 8), (1, 60000), (2, 30000), (1, 400000), (400000, 1)])
         shape = (c0 * rng.choice([1, 2]), c1 * rng.choice([1, 2, 3]))
         chunks = (c0, c1)
     else:
@@ -76,7 +76,32 @@ def op_instances():
         "tril": lambda xp, c, a, b: xp.tril(a),
         "var": lambda xp, c, a, b: xp.var(xp.astype(a, xp.float64), axis=0),
         "nansum": lambda xp, c, a, b: c.nansum(xp.astype(a, xp.float64), axis=1),
+        # a deep right-nested fold that the optimizer fuses into one op: every already evaluated predecessor's output
+        # is still held while the next one runs
+        "right-nested-fold": lambda xp, c, a, b: _right_fold(xp, [xp.negative(a), xp.negative(b)] * 4),
+        "left-fold": lambda xp, c, a, b: _left_fold(xp, [xp.negative(a), xp.negative(b)] * 3),
+        # widening reductions without a prior cast: the intermediate of mean is a 16-byte {n, total} record per element
+        "mean-direct-axis0": lambda xp, c, a, b: xp.mean(a, axis=0),
+        "mean-direct-axis1": lambda xp, c, a, b: xp.mean(a, axis=1),
+        "sum-direct-axis1": lambda xp, c, a, b: xp.sum(a, axis=1),
+        "sum-direct-axis0": lambda xp, c, a, b: xp.sum(a, axis=0),
+        "prod-direct-axis0": lambda xp, c, a, b: xp.prod(a, axis=0),
+        "var-direct": lambda xp, c, a, b: xp.var(a, axis=0),
     }
+
+
+def _right_fold(xp, terms):
+    acc = terms[-1]
+    for t in reversed(terms[:-1]):
+        acc = xp.add(t, acc)
+    return acc
+
+
+def _left_fold(xp, terms):
+    acc = terms[0]
+    for t in terms[1:]:
+        acc = xp.add(acc, t)
+    return acc
 
 
 def _twice(x):
@@ -105,45 +130,57 @@ def known_key(opname, func_name, desc):
     return f"under-projected:{func_name}"
 
 
-def work(part, n):
+def run_instance(desc):
+    """Builds and runs one operation instance; returns (plan, {op name: (peak delta, task)}) or None when declined."""
     import cubed
     import cubed.array_api as xp
     import zarr
 
     ops = op_instances()
-    names = list(ops)
+    spec = cubed.Spec(allowed_mem="2GB", reserved_mem=MB, zarr_compressor=desc["compressor"], intermediate_store=zarr.storage.MemoryStore())
+    rs = np.random.RandomState(desc["data_seed"])
+    shape, chunks, dtype, og = tuple(desc["shape"]), tuple(desc["chunks"]), desc["dtype"], desc["optimize_graph"]
+    an = (rs.rand(*shape) * 100).astype(dtype)
+    bn = (rs.rand(*shape) * 100).astype(dtype)
+    try:
+        with warnings.catch_warnings():
+            warnings.simplefilter("ignore")
+            a = cubed.from_array(an, chunks=chunks, spec=spec)
+            b = cubed.from_array(bn, chunks=chunks, spec=spec)
+            y = ops[desc["op"]](xp, cubed, a, b)
+            plan = y.plan(optimize_graph=og)
+            meter = Meter()
+            y.compute(executor=AdvExecutor(on_task=meter), optimize_graph=og)
+    except (ValueError, TypeError, NotImplementedError):
+        return None
+    except Exception:
+        return None     # C17's business
+    return plan, meter.peaks
+
+
+def work(part, n):
+    names = list(op_instances())
     tracemalloc.start()
     try:
         for _ in range(n):
             name = part.rng.choice(names)
             gk, shape, chunks = geometries(part.rng)
-            dtype = part.rng.choice(["float64", "float64", "float32", "int64", "int32"])
+            dtype = part.rng.choice(["float64", "float64", "float32", "int64", "int32", "uint8", "int8"])
             comp = part.rng.choice(["auto", None])
             og = part.rng.random() < 0.5
-            spec = cubed.Spec(allowed_mem="2GB", reserved_mem=MB, zarr_compressor=comp, intermediate_store=zarr.storage.MemoryStore())
-            desc = {"op": name, "geometry": gk, "shape": shape, "chunks": chunks, "dtype": dtype, "compressor": comp, "optimize_graph": og}
-            rs = np.random.RandomState(part.rng.randrange(10**6))
-            an = (rs.rand(*shape) * 100).astype(dtype)
-            bn = (rs.rand(*shape) * 100).astype(dtype)
-            try:
-                with warnings.catch_warnings():
-                    warnings.simplefilter("ignore")
-                    a = cubed.from_array(an, chunks=chunks, spec=spec)
-                    b = cubed.from_array(bn, chunks=chunks, spec=spec)
-                    y = ops[name](xp, cubed, a, b)
-                    plan = y.plan(optimize_graph=og)
-                    meter = Meter()
-                    y.compute(executor=AdvExecutor(on_task=meter), optimize_graph=og)
-            except (ValueError, TypeError, NotImplementedError):
+            desc = {"op": name, "geometry": gk, "shape": shape, "chunks": chunks, "dtype": dtype, "compressor": comp, "optimize_graph": og,
+                    "data_seed": part.rng.randrange(10**6)}
+            r = run_instance(desc)
+            if r is None:
                 continue
-            except Exception:
-                continue     # C17's business
+            plan, peaks = r
             part.evaluations += 1
             part.count("op:" + name)
             part.count("geometry:" + gk)
             part.count("compressor:" + str(comp))
             ntasks = 0
-            for opname, (delta, task) in meter.peaks.items():
+            uncompressed = None
+            for opname, (delta, task) in peaks.items():
                 if opname == "create-arrays":
                     continue
                 node = plan.dag.nodes[opname]
@@ -154,9 +191,26 @@ def work(part, n):
                 part.count(f"utilisation-{min(int(ratio * 10), 12) * 10}%")
                 if delta > pop.projected_mem:
                     fn = node.get("func_name", "")
-                    part.fail(known_key(opname, fn, desc),
+                    key = known_key(opname, fn, desc)
+                    from cubed.utils import chunk_memory
+                    out_mem = int(chunk_memory(pop.target_array)) if not isinstance(pop.target_array, list) else max(int(chunk_memory(t)) for t in pop.target_array)
+                    if comp is not None:
+                        # is the overrun the compressed copy of the (incompressible) output chunk?  the same instance is
+                        # re-run without a compressor: if it then stays within the projection and the overrun is at most one
+                        # output chunk, it is the specific known finding D23, otherwise an ordinary under-projection
+                        if uncompressed is None:
+                            r2 = run_instance({**desc, "compressor": None})
+                            uncompressed = r2[1] if r2 else {}
+                            plan2 = r2[0] if r2 else None
+                        names2 = [n_ for n_ in (plan2.dag.nodes if plan2 is not None else []) if plan2.dag.nodes[n_].get("func_name") == fn
+                                  and plan2.dag.nodes[n_].get("primitive_op") is not None]
+                        ok_without = bool(names2) and all(uncompressed.get(n_, (0, None))[0] <= plan2.dag.nodes[n_]["primitive_op"].projected_mem for n_ in names2)
+                        if ok_without and delta - pop.projected_mem <= out_mem * 1.05 + 65536:
+                            key = "compressed-output-copy-not-projected"
+                    part.fail(key,
                               f"{name}: a task of {opname} ({fn}) allocated {delta} bytes of array data beyond its baseline, projected_mem is {pop.projected_mem} "
-                              f"(chunk {chunks} {dtype}, compressor {comp}, optimize_graph={og})", {**desc, "measured": delta, "projected": pop.projected_mem, "task": task})
+                              f"(chunk {chunks} {dtype}, compressor {comp}, optimize_graph={og}, output chunk {out_mem} bytes)",
+                              {**desc, "measured": delta, "projected": pop.projected_mem, "task": task, "output_chunk_bytes": out_mem})
                 # K: elementwise ops are projected by the bare formula
                 if node.get("func_name") in ("negative", "add", "multiply", "abs", "sqrt", "where") and not og:
                     srcs = [plan.dag.nodes[s]["target"] for s in pop.source_array_names if s in plan.dag.nodes]
@@ -167,8 +221,8 @@ def work(part, n):
                                                   f"(task_peak 1 1 {('[' + '; '.join('ABlock ' + cZ(i) for i in ins) + ']')} 0 {cZ(out)} <=? formula 1 1 {('[' + '; '.join('ABlock ' + cZ(i) for i in ins) + ']')} 0 {cZ(out)})",
                                           "desc": {**desc, "func": node.get("func_name")}, "show": f"calc_projected {cZ(pop.reserved_mem)} {cZlist(ins)} 0 {cZ(out)} 1 1"})
             if ntasks >= 2:
-                part.nt(desc)
-            part.sample({**desc, "peaks": {k: v[0] for k, v in list(meter.peaks.items())[:4]}}, limit=1)
+                part.nt({k_: v_ for k_, v_ in desc.items() if k_ != "data_seed"})
+            part.sample({**desc, "peaks": {k: v[0] for k, v in list(peaks.items())[:4]}}, limit=1)
     finally:
         tracemalloc.stop()
 
